@@ -146,6 +146,24 @@ TABLE = {
             "enumerated; on the extracted machine (with error pauses) no reachable Unpause restores a capture from an "
             "earlier run, an already-undone pause, or safe values captured during a pause.",
             "Decides that a capture cannot outlive its pause; equality of the restored tag values is value-level and not decided."),
+    "C10": ("ordered must-call sets on the CFGs of Stop/Restart + class-hierarchy walk of on_stop overrides",
+            "Stop._run and Restart._run must call cancel_all_commands(self.name) -> tracking.disable -> emit_on_stop -> "
+            "clear_run_id -> _stop_interpreter in dominance order (Restart then, after a yield, set_run_id -> enable -> "
+            "emit_on_start); the cancel chain down to _finalize_command is checked link by link; every Tag subclass "
+            "overriding on_stop must reach super().on_stop() on all paths (that is what ends simulations).",
+            "Decides the clean-up structure; completeness of the run log at every stop point and UOD callback behaviour are not decided."),
+    "C11": ("lifecycle typestate rules on the CFG of CommandManager._execute_uod_command",
+            "Both cancel loops must dominate instance creation and every execute(); creation only without an existing "
+            "instance; initialize only when not initialised and before execute; finalize only through guarded sites; from "
+            "create_command every path to any exit (normal or raising, under the typestate of a fresh instance) must pass "
+            "execute or a finalisation; finalize must dispose.",
+            "Decides the lifecycle structure of the command manager; exceptions thrown by UOD callbacks during finalisation are not decided."),
+    "C12": ("check-before-mutate dominance + sibling agreement of cancel/force handlers + flag-consultation audit of interpreter waiting loops",
+            "Record states Cancelled/Forced must not be reachable from a refused node.cancel()/force(); no caller may "
+            "disable that check; flags are set only when offered; cancel_instruction and force_instruction must both "
+            "reject unknown ids and track known ones; every waiting loop of a cancellable/forcible instruction must read "
+            "the flag (directly or via its helper); Pause/Hold.cancel must run the inverse command.",
+            "Decides the reject-or-apply structure; tick-exact timing of the effect is not decided."),
 }
 
 DESIGN_NA = {
